@@ -64,8 +64,8 @@ def ghostStep (g : Ghost) (op : Op) (err : Err) (size : Nat) : Ghost :=
   | .newSection _ _ => if err = .ok then { g with sizes := g.sizes ++ [0] } else g
   | .section id => if err = .ok then { g with cur := id } else g
   | .bind l =>
-    -- bind_label binds the label before it patches: InvalidDisplacement still means "bound"
-    if (err = .ok ∨ err = .invalidDisplacement) ∧ l < g.labels.length then { g with labels := g.labels.set l (some (g.cur, start)) } else g
+    -- (repaired bind_label validates before it binds: any error means "nothing changed")
+    if err = .ok ∧ l < g.labels.length then { g with labels := g.labels.set l (some (g.cur, start)) } else g
   | .align _ | .embed _ => g1
   | .jmp _ _ l => addRef .x86rel l 0#64
   | .mem k l d =>
